@@ -461,7 +461,8 @@ class MacroProgram(ElementProgram):
             REPEAT = skip
         else:
             defines = tal.parse_defines(clause)
-            assert len(defines) == 1
+            if len(defines) != 1:
+                raise LanguageError("Invalid repeat syntax.", clause)
             context, names, expr = defines[0]
 
             expression = nodes.Value(expr)
